@@ -52,6 +52,8 @@ type funcContract struct {
 	// call-site directives: "callee#k" -> list of clauses
 	callRequires map[string][]*clause
 	callAssumeReq map[string]bool
+	exactDiv      bool
+	exactDivs     []string
 	ghostAt      []ghostUpdate
 	panicsOK     bool
 	havocOnly    bool // function is outside the subset: refutations only
@@ -394,6 +396,11 @@ func (cs *contractSet) loadFile(path, pkgPath string) error {
 				cur.allocBound = rest
 			case "wraps":
 				cur.wraps = true
+			case "exact_divmod":
+				// unsigned / and % by a variable are the SMT div/mod (nonlinear) instead of abstract functions:
+				// for functions whose divisor ranges over a small set the contract enumerates
+				cur.exactDiv = true
+				cur.exactDivs = strings.Fields(rest) // optional: the constants the divisor ranges over
 			case "dynamic_calls_modify_nothing":
 				cur.dynPure = true
 			case "requires":
